@@ -1575,6 +1575,10 @@ impl IRBuilder {
         let mut group_by = Vec::new();
         let mut aggregations = Vec::new();
         let mut output_schema = Vec::new();
+        // Position of every head term in the rows the Aggregate node emits
+        // (group-by columns first, then aggregate values): (is_aggregate, index).
+        let mut head_slots: Vec<(bool, usize)> = Vec::new();
+        let mut has_ranking = false;
 
         for term in &head.args {
             match term {
@@ -1586,11 +1590,13 @@ impl IRBuilder {
                         .ok_or_else(|| format!("Variable {v} not found in schema"))?;
 
                     // All non-aggregate head variables are group-by keys
+                    head_slots.push((false, group_by.len()));
                     group_by.push(pos);
                     output_schema.push(v.clone());
                 }
                 Term::Aggregate(func, var_name) => {
                     if func.is_ranking() {
+                        has_ranking = true;
                         // Ranking aggregates: output_vars are inside the aggregate
                         let (ir_func, agg_col_pos) = match func {
                             AggregateFunc::TopK {
@@ -1725,6 +1731,7 @@ impl IRBuilder {
                             AggregateFunc::Avg => AggregateFunction::Avg,
                             _ => unreachable!(),
                         };
+                        head_slots.push((true, aggregations.len()));
                         aggregations.push((ir_func, col_pos));
                         output_schema.push(format!("{}_{}", func_to_str(func), var_name));
                     }
@@ -1764,10 +1771,38 @@ impl IRBuilder {
             }
         }
 
-        Ok(IRNode::Aggregate {
-            input: Box::new(input),
-            group_by,
-            aggregations,
+        // The Aggregate node emits the group-by columns first and the aggregate values
+        // after them. When an aggregate is not the last head term (`r(count<Y>, X)`), restore
+        // the order of the head with a projection on top.
+        let num_keys = group_by.len();
+        let projection: Vec<usize> = head_slots
+            .iter()
+            .map(|&(is_agg, idx)| if is_agg { num_keys + idx } else { idx })
+            .collect();
+        let in_head_order = projection.iter().enumerate().all(|(i, &p)| i == p);
+
+        if has_ranking || in_head_order {
+            return Ok(IRNode::Aggregate {
+                input: Box::new(input),
+                group_by,
+                aggregations,
+                output_schema,
+            });
+        }
+
+        let mut emitted_schema = vec![String::new(); output_schema.len()];
+        for (head_pos, &emitted_pos) in projection.iter().enumerate() {
+            emitted_schema[emitted_pos] = output_schema[head_pos].clone();
+        }
+
+        Ok(IRNode::Map {
+            input: Box::new(IRNode::Aggregate {
+                input: Box::new(input),
+                group_by,
+                aggregations,
+                output_schema: emitted_schema,
+            }),
+            projection,
             output_schema,
         })
     }
